@@ -107,27 +107,38 @@ PROPS['C05'] = {
 
 PROPS['C13'] = {
     'module': 'Yabgp.Props.C13',
-    'theorems': ['Yabgp.C13_stop_state', 'Yabgp.C13_quiet_step', 'Yabgp.C13_quiet', 'Yabgp.C13_start',
-                 'Yabgp.C01_manual_stop', 'Yabgp.C01_manual_start_ignored', 'Yabgp.KF_C13_pending_attempt_adopted'],
+    'theorems': ['Yabgp.C13_stop_reaches_stopped', 'Yabgp.C13_final', 'Yabgp.C13_stop_state', 'Yabgp.C13_quiet_step',
+                 'Yabgp.C13_quiet', 'Yabgp.C13_start', 'Yabgp.C13_pending_attempt_aborted',
+                 'Yabgp.C01_manual_stop', 'Yabgp.C01_manual_start_ignored', 'Yabgp.one_step', 'Yabgp.Core.quiet_manualStop'],
     'genagree': SESSION_GEN,
     'suites': ['session'],
-    'cannot': SESSION_CANNOT + '; the quiet period is proved from the situation "no attempt pending and no connection open" - a '
-              'pending attempt at stop time is the recorded known finding',
+    'cannot': SESSION_CANNOT,
+    'level_text': 'Lean 4: C13_final - in EVERY state reachable after the agent\'s start, a manual stop leads to the stopped '
+                  'situation (Idle, no timer, automatic start forbidden, tracked connection closed, the attempt in flight given '
+                  'up) and from there NO continuation the environment can produce without an operator start makes the agent write '
+                  'a message or start a connection attempt (induction over the continuation; the reachable-state part uses the '
+                  'control-skeleton invariants One/Pend/Heal proved over all histories); C01_manual_stop: Cease iff Established; '
+                  'C13_start: start from the stopped situation connects at once and re-enables automatic recovery. Tie: session '
+                  'correspondence; oracle: after stop no write / connect until start.',
 }
 
 PROPS['C12'] = {
     'module': 'Yabgp.Props.C12',
-    'theorems': ['Yabgp.C12_writes_to_tracked', 'Yabgp.C12_at_most_one_calm', 'Yabgp.one_step', 'Yabgp.one_first',
-                 'Yabgp.Core.one_stepOutcome', 'Yabgp.Core.one_frameOutcome', 'Yabgp.heal_step', 'Yabgp.core_step_inv',
-                 'Yabgp.KF_C12_start_while_attempt_pending',
-                 'Yabgp.KF_C12_retry_while_attempt_pending', 'Yabgp.KF_C12_idlehold_after_late_connection_lost'],
+    'theorems': ['Yabgp.C12_writes_to_tracked', 'Yabgp.C12_at_most_one', 'Yabgp.one_step', 'Yabgp.one_first', 'Yabgp.one_run',
+                 'Yabgp.Core.one_stepOutcome', 'Yabgp.Core.one_frameOutcome', 'Yabgp.Core.pend_frameOutcome',
+                 'Yabgp.heal_step', 'Yabgp.core_step_inv',
+                 'Yabgp.C12_regression_start_while_attempt_pending', 'Yabgp.C12_regression_retry_while_attempt_pending',
+                 'Yabgp.C12_regression_idlehold_after_late_connection_lost'],
     'genagree': SESSION_GEN,
     'suites': ['session'],
-    'cannot': SESSION_CANNOT + '; PARTIAL: "every message goes to the tracked connection" is proved for all states and events; '
-              '"at most one live connection, none left open and unreferenced" is proved for every history that avoids the three '
-              'recorded known findings (operator start / connect-retry expiry / automatic start while an attempt is pending: '
-              'CalmRun) and is false of the pinned code in exactly those (KF_C12_* witnesses, replayed on the implementation on '
-              'every run); "eventually closed" is the safety reading (never open and unreferenced), not a liveness theorem',
+    'cannot': SESSION_CANNOT + '; "eventually closed" is the safety reading (a connection the agent opened is never open and '
+              'unreferenced), not a liveness theorem about the peer or the network',
+    'level_text': 'Lean 4: C12_at_most_one - in EVERY state reachable after the agent\'s start (any peer behaviour, timer order, '
+                  'operator stop/start, connect-retry below or above the TCP timeout) at most one connection is live (attempt in '
+                  'flight or open), every open connection is the tracked one, and the attempt in flight is the one the peering '
+                  'remembers; C12_writes_to_tracked - every message goes to the tracked connection, for every state and event. '
+                  'Proved on the control skeleton (invariants One, Pend, Heal) by induction over all histories. Tie: session '
+                  'correspondence (the stand-in reactor keeps every connector: live connectors are counted after every event).',
 }
 
 PROPS['C18'] = {
